@@ -27,7 +27,10 @@ def run(P, rep, tier):
         'obligations are the induction argument), declarators, initialisers, the value offsetof yields. Decided for offsetof: that the expansion <stddef.h> gives is a constant expression for '
         'is_const_expr(), the predicate that chooses between a fixed-size and a variable-length array type. Ownership of type objects (R08.6): a flow-sensitive provenance analysis over every function of every unit '
         'decides for each store into a Type/Member object whether the object can be one that other declarations share (typedef\'d types, ty_* globals, `ty`/`base` fields); only objects the '
-        'activation created, or the type of a tag that a definition completes, may be written; functions that store through a parameter are followed to every caller.')
+        'activation created, or the type of a tag that a definition completes, may be written; functions that store through a parameter are followed to every caller. '
+        'Name resolution (R08.7): the size / alignment / offset an expression yields is that of the type or member its name denotes - the exact-spelling obligations of C17 R17.17 for every name comparison and keyed '
+        'table operation of the parser and the scope obligations of C03 R03.5 for tags and typedef names are re-issued. sizeof of an incomplete type (negative size marker) must end in a diagnostic on every path (R08.4 '
+        'incomplete-operand-diagnosed); a member declaration without declarator becomes an anonymous member only on paths that looked at more than the kind of its type (R08.3 anonymous-member/untagged-specifier-only).')
     rep.assumptions += [
         'calloc succeeds and zero-fills', 'equal()/consume()/skip() compare a token with a spelling (tokenize.c)',
         'layout grid: running offset 0..287 bits, bit-field types of 1,2,4,8 bytes with every width 1..8*size, member sizes 0..48, alignments 1..16; values never overflow int',
@@ -41,7 +44,7 @@ def run(P, rep, tier):
     ]
     import traceback
     for rule, f in (('R08.3', r083), ('R08.2', r082), ('R08.1', r081), ('R08.4', r084), ('R08.4', r084_alignas_specifier), ('R08.4', r084_specifier_state), ('R08.5', r085),
-                    ('R08.5', r085_abi_layout), ('R08.5', r085_offsetof), ('R08.6', r086)):
+                    ('R08.5', r085_abi_layout), ('R08.5', r085_offsetof), ('R08.6', r086), ('R08.7', r087)):
         try:
             f(P, u, rep)
         except AnalysisBroken as ex:          # one rule's anchors vanishing must not silence the others
@@ -49,6 +52,60 @@ def run(P, rep, tier):
         except Exception as ex:               # a checker bug is never a verdict
             tb = traceback.format_exc().strip().splitlines()
             rep.undecided(rule, '%s:%s' % (PU, f.__name__), 'internal error of the checker: %s | %s' % (ex, ' / '.join(tb[-3:])))
+
+
+# =====================================================================================
+# R08.7 a type name / member designator denotes THAT type / THAT member
+# =====================================================================================
+def _borrow87(rep, key, f):
+    from ..interp import Unsupported, Infeasible
+    try:
+        f()
+        return True
+    except (AnalysisBroken, Unsupported, Infeasible) as e:
+        rep.undecided('R08.7', key + ':analysis', 'analysis could not proceed: %s' % e)
+    except (ImportError, AttributeError, TypeError, KeyError, IndexError, ValueError, RecursionError) as e:
+        rep.undecided('R08.7', key + ':borrowed-rule', 'the rule function re-used here could not be run: %r' % (e,))
+    return False
+
+
+# functions of the scope chain through which a name denotes a TYPE (tags, typedef names) - C03 R03.5 speaks about more (ordinary identifiers)
+_TYPE_NAME_LOOKUPS = ('find_tag', 'find_typedef', 'push_tag_scope', 'struct_union_decl', 'enter_scope', 'leave_scope')
+
+
+def r087(P, u, rep):
+    """sizeof / _Alignof / offsetof / pointer stride are answered from the Type or Member object a NAME resolves to.  The tables above are about the
+    objects; this rule is about the resolution: (i) `x.m`, `p->m`, offsetof(T, m) (which is &((T *)0)->m) and `.m =` find the member whose name is
+    exactly m - C17 R17.17 (every byte comparison of a (pointer, length) key with a stored name in the parser is decided together with a test of the
+    stored name's length, whatever shape the test has; every table operation gets the length that belongs to its key) re-issued;
+    (ii) `struct T` / a typedef name denote the declaration of the innermost scope, and a definition `struct T { ... struct T *next; }` refers to itself
+    from its first member on - C03 R03.5 re-issued for the lookups through which a name denotes a type"""
+    from ..report import Report, reissue
+    rep.rule('R08.7', 'the size, alignment, offset and stride an expression yields are those of the type / member its NAME denotes: a member designator (x.m, p->m, offsetof(T, m), .m =) selects the member '
+                      'whose name has the same length and bytes as the identifier (C17 R17.17 re-issued for every name comparison and keyed table operation of the parser); `struct T`, `union T` and typedef names denote the declaration of the '
+                      'innermost scope, and the tag of a definition is in the innermost scope before its members are parsed, so that `struct T *next` inside `struct T {...}` has the layout of the type being defined (C03 R03.5 re-issued)', floor=16)
+    sub17, sub3 = Report('C17'), Report('C03')
+
+    def go17():
+        from . import c17
+        c17.r1717(P, sub17)
+
+    def go3():
+        from . import c03
+        c03.r035(P, sub3)
+    n17 = n3 = 0
+    if _borrow87(rep, 'parse.c:name-comparisons', go17):
+        n17 = reissue(rep, 'R08.7', sub17, 'a member designator / tag / typedef name would resolve to the entry of another name, and the layout query is answered for that one: ',
+                      keep=lambda o: o['rule'] == 'R17.17' and o['key'].split(':', 1)[1].startswith(PU + ':'))
+        if n17 < 6:
+            rep.undecided('R08.7', 'parse.c:name-comparisons', 'only %d name comparison(s) / keyed table operation(s) of the parser (C17 R17.17) could be re-issued' % n17)
+    if _borrow87(rep, 'parse.c:type-names', go3):
+        def keep3(o):
+            k = o['key'].split(':')
+            return o['rule'] == 'R03.5' and len(k) > 2 and k[2] in _TYPE_NAME_LOOKUPS
+        n3 = reissue(rep, 'R08.7', sub3, 'sizeof / _Alignof / the stride of a pointer to `struct T` (or a typedef name) would be those of another declaration of that name: ', keep=keep3)
+        if n3 < 8:
+            rep.undecided('R08.7', 'parse.c:type-names', 'only %d obligation(s) about tag / typedef lookup (C03 R03.5) could be re-issued' % n3)
 
 
 # =====================================================================================
@@ -1762,6 +1819,50 @@ def _flexible_array(rep, it, paths, where):
         rep.ob('R08.3', key, bad is None, bad or '', where=where)
 
 
+_BORING_ALIGN = None
+
+
+def _anonymous_member_guard(rep, it, paths, where):
+    """C11 6.7.2.1p13: an anonymous member is a member declaration WITHOUT declarator whose specifier is a struct/union specifier WITHOUT tag.  `struct In { int a; };`
+    inside a struct only declares the tag, `T;` (typedef name) declares nothing: neither adds a member.  The type object alone cannot tell the three apart (a typedef'd
+    untagged struct IS the object of its specifier), so on every path of struct_members() that turns a declarator-less declaration into a member the decision must rest on
+    something besides the kind of the declspec() result, the `;` and the _Alignas value: the specifier tokens, a fact declspec() reports, a field of the type."""
+    import re
+    key = '%s:struct_members:anonymous-member/untagged-specifier-only' % PU
+    boring_field = re.compile(r'^!?\(?basety\.kind\b|^!?\(\w+\.align\)$')
+    call_res = re.compile(r'^(\w+)#\d+ in ')
+    n = 0
+    blind = None
+    for ctx, out in paths:
+        if out[0] != 'ret':
+            continue
+        at = getattr(ctx, 'c08_declspec', None)
+        if at is None:
+            continue
+        mems = [e[1] for e in ctx.events if e[0] == 'fstore' and e[2] == 'ty' and isinstance(e[1], Obj) and e[1].tname == 'Member' and not e[1].lazy
+                and isinstance(e[4], Obj) and e[4].label == 'basety']
+        mems = [m for m in mems if isinstance(m.fields.get('name', 0), int) and not m.fields.get('name', 0) and not (isinstance(m.fields.get('is_bitfield', 0), int) and m.fields.get('is_bitfield', 0))]
+        if not mems:
+            continue
+        n += 1
+        # calls on the token stream that only ask for the end of the declaration / of the member list
+        plain = sum(1 for e in ctx.events[at[0]:] if e[0] == 'call' and e[1] in ('equal', 'consume', 'skip') and any(isinstance(a, str) and a in (';', '}') for a in e[2]))
+        other_calls = [e[1] for e in ctx.events[at[0]:] if e[0] == 'call' and not (e[1] in ('equal', 'consume', 'skip') and any(isinstance(a, str) and a in (';', '}') for a in e[2]))]
+        rest = [t for t in ctx.trail[at[1]:] if not boring_field.search(t)]
+        token_tests = [t for t in rest if call_res.match(t)]
+        evidence = bool(other_calls) or len(token_tests) > plain or any(not call_res.match(t) for t in rest)
+        if not evidence and blind is None:
+            blind = list(ctx.trail[at[1]:])
+    if not n:
+        rep.undecided('R08.3', key, 'no path of struct_members() turns a declaration without declarator into a member: anonymous members are not recognised any more', where=where)
+        return
+    rep.ob('R08.3', key, blind is None,
+           'struct_members() turns EVERY declaration without declarator whose type is a struct or union into an anonymous member (the path decides on %s only): the inner `struct In { int a; };` of '
+           '`struct O { struct In { int a; }; int b; }` (a tagged specifier: declares the tag only) and `T;` with `typedef struct { int a; } T;` (declares nothing) add a member, so sizeof(struct O) is 8 (gcc 4) '
+           'and every later member is 4 bytes further than in gcc-compiled code; only a struct/union specifier WITHOUT tag and without declarator is an anonymous member (C11 6.7.2.1p13)' % (blind,), where=where,
+           facts={'decisions': blind})
+
+
 def _kinds_of(it, u, t):
     """names of the kinds a type object can still have on this path (None: unconstrained)"""
     k = t.fields.get('kind') if isinstance(t, Obj) else None
@@ -1773,6 +1874,39 @@ def _kinds_of(it, u, t):
         vals = {k}
     names = {v: n for n, v in u.enums.items() if n.startswith('TY_')}
     return set(names.get(v, v) for v in vals)
+
+
+def _incomplete_operand(rep, it, u, paths, key, spelled, where):
+    """an incomplete type (array of unknown bound, struct/union declared but not defined) has no size: its size field holds a negative marker.  C11 6.5.3.4p1: sizeof shall
+    not be applied to an incomplete type.  On every returning path of the sizeof arms that yields a compile-time number, the facts of the path must exclude a negative size
+    of the operand type (the complementary paths end in a diagnostic); otherwise the marker itself, converted to unsigned long, is the value of the expression."""
+    n = 0
+    und = bad = None
+    for ctx, out in paths:
+        if out[0] != 'ret' or getattr(ctx, 'c08_parsed', 0) != 1:
+            continue
+        if _kinds_of(it, u, ctx.c08op[0]) == {'TY_VLA'}:
+            continue
+        try:
+            g = Summary(ctx, {})
+            e = {s_: 8 for s_ in g.syms()}
+            e['TS'] = 8
+            if not g.applies(e):
+                continue               # a path for other operands than a complete object type of size 8
+            n += 1
+            for neg in (-1, -4, -8):
+                e['TS'] = neg
+                if g.applies(e):
+                    bad = bad or neg
+        except (Uninterpretable, KeyError, ZeroDivisionError) as ex:
+            und = und or 'path condition not evaluable: %r' % (ex,)
+    if bad is not None:
+        rep.ob('R08.4', key, False, '`%s` of an operand whose type is incomplete (size field %d: `extern int e[]; sizeof e`, `sizeof(int[])`, `struct S; sizeof(struct S)`, and `int a[5]; int a[]; sizeof a`) is accepted '
+               'and yields the marker as an unsigned long (%d) instead of a diagnostic (C11 6.5.3.4p1; gcc: invalid application of sizeof to incomplete type)' % (spelled, bad, bad % 2 ** 64), where=where)
+    elif und or not n:
+        rep.undecided('R08.4', key, und or 'no returning path of primary() for `%s` of a complete type' % spelled, where=where)
+    else:
+        rep.ob('R08.4', key, True, '', where=where)
 
 
 def _operand_type(P, u, rep, prim):
@@ -1869,12 +2003,27 @@ def _operand_type(P, u, rep, prim):
             bad = und = None
             judged = 0
             ctors = set()
+            if kw == 'sizeof':
+                _incomplete_operand(rep, it, u, paths, '%s:primary:%s-%s/incomplete-operand-diagnosed' % (PU, kw, form), spelled, where)
             for ctx, out in paths:
                 if getattr(ctx, 'c08_parsed', 0) != 1:
                     und = und or 'a path of primary() on `%s` parses %d operands' % (' '.join(seq), getattr(ctx, 'c08_parsed', 0))
                     continue
                 if out[0] != 'ret':
-                    bad = bad or '`%s` is rejected by %s()' % (spelled, out[1])
+                    # a diagnostic is a defect only if an operand of a complete type can reach it (an incomplete type - negative size marker - has no size to yield)
+                    reach = True
+                    try:
+                        g_ = Summary(ctx, {})
+                        if 'TS' in g_.syms():
+                            reach = False
+                            for ts_ in (0, 1, 4, 8, 48):
+                                e_ = {s_: 8 for s_ in g_.syms()}
+                                e_['TS'] = ts_
+                                reach = reach or g_.applies(e_)
+                    except (Uninterpretable, KeyError, ZeroDivisionError):
+                        reach = True
+                    if reach:
+                        bad = bad or '`%s` is rejected by %s()' % (spelled, out[1])
                     continue
                 chain = ctx.c08op
                 kinds = [_kinds_of(it, u, t) for t in chain]
@@ -2074,6 +2223,10 @@ def r084(P, u, rep):
         a = args[2] if len(args) > 2 else None
         if isinstance(a, Obj):
             a.fields['align'] = Sym('AL', 'int')
+        # the specifiers are consumed: the token after them is another one than the first (a function that looks at the specifier tokens walks from one to the other)
+        if args and isinstance(args[0], _Ref):
+            args[0].place.set(it, Obj('Token', lazy=True, label='after-declspec'))
+        ctx.c08_declspec = (len(ctx.events), len(ctx.trail))
         return Obj('Type', lazy=True, label='basety')
 
     sites = [
@@ -2087,8 +2240,19 @@ def r084(P, u, rep):
             rep.undecided('R08.4', '%s:%s:alignas' % (PU, fname), 'declaration site %s vanished' % fname)
             continue
         where = '%s:%d' % (PU, fd.line)
+        # predicates over the token stream (every parameter a token, a truth value returned) that the site calls are not followed into: their answer is an unknown of the path
+        preds = []
+        for c in fd.calls():
+            cn = c.callee()
+            cf = u.fn(cn) if cn else None
+            if cf is None or cn in OPQ or cn in cuts or cn in preds or cn == fname:
+                continue
+            ps = u.params(cn)
+            rt = ' '.join((cf.type or '').split('(')[0].split())
+            if ps and all(' '.join((p_.type or '').split()).replace('struct ', '') in ('Token *', 'Token **') for p_ in ps) and rt in ('bool', '_Bool', 'int'):
+                preds.append(cn)
         try:
-            it = Interp(P, u, {'opaque': OPQ, 'cut': cuts, 'loop_limit': 1, 'track_stores': True})
+            it = Interp(P, u, {'opaque': OPQ + preds, 'cut': cuts, 'loop_limit': 1, 'track_stores': True})
             paths = it.explore(fname, mk, max_paths=4000)
         except AnalysisBroken as ex:
             rep.undecided('R08.4', '%s:%s:alignas' % (PU, fname), 'declaration site not interpretable: %s' % ex, where=where)
@@ -2179,6 +2343,7 @@ def r084(P, u, rep):
                         res[k] = [ok, msg, {'path': ctx.trail[-10:], 'alignment': fgot.text}]
         if fname == 'struct_members':
             _flexible_array(rep, it, paths, where)
+            _anonymous_member_guard(rep, it, paths, where)
         if broken and not res:
             rep.undecided('R08.4', '%s:%s:alignas' % (PU, fname), 'declaration site not interpretable: %s' % broken, where=where)
         elif not nobj:
